@@ -13,11 +13,26 @@ use serde::{Deserialize, Serialize};
 use std::sync::OnceLock;
 
 pub const LAYOUTS: &[(&str, &str)] = &[
-    ("101", "20 21R? 28D 50[CL]? 50[FGH]? 52[AC]? 51A? 30 25? ( 21 21F? 23E* 32B 50[CL]? 50[FGH]? 52[AC]? 56[ACD]? 57[ACD]? 59[-AF] 70? 77B? 33B? 71A 25A? 36? ){1,}"),
-    ("103", "20 13C* 23B 23E* 26T? 32A 33B? 36? 50[AFK] 51A? 52[AD]? 53[ABD]? 54[ABD]? 55[ABD]? 56[ACD]? 57[ABCD]? 59[-AF] 70? 71A 71F* 71G? 72? 77B? 77T?"),
-    ("104", "20 21R? 23E? 21E? 30 51A? 50[CL]? 50[AK]? 52[ACD]? 26T? 77B? 71A? 72? ( 21 23E? 21C? 21D? 21E? 32B 50[CL]? 50[AK]? 52[ACD]? 57[ACD]? 59[-A] 70? 26T? 77B? 33B? 71A? 71F? 71G? 36? ){1,} 32B? 19? 71F? 71G? 53[ABD]?"),
-    ("107", "20 23E? 21E? 30 51A? 50[CL]? 50[AK]? 52[ACD]? 26T? 77B? 71A? 72? ( 21 23E? 21C? 21D? 21E? 32B 50[CL]? 50[AK]? 52[ACD]? 57[ACD]? 59[-A] 70? 26T? 77B? 33B? 71A? 71F? 71G? 36? ){1,} 32B 19? 71F? 71G? 53[ABD]?"),
-    ("110", "20 53[ABD]? 54[ABD]? 72? ( 21 30 32[AB] 50[AFK]? 52[ABD]? 59[-F] ){1,10}"),
+    (
+        "101",
+        "20 21R? 28D 50[CL]? 50[FGH]? 52[AC]? 51A? 30 25? ( 21 21F? 23E* 32B 50[CL]? 50[FGH]? 52[AC]? 56[ACD]? 57[ACD]? 59[-AF] 70? 77B? 33B? 71A 25A? 36? ){1,}",
+    ),
+    (
+        "103",
+        "20 13C* 23B 23E* 26T? 32A 33B? 36? 50[AFK] 51A? 52[AD]? 53[ABD]? 54[ABD]? 55[ABD]? 56[ACD]? 57[ABCD]? 59[-AF] 70? 71A 71F* 71G? 72? 77B? 77T?",
+    ),
+    (
+        "104",
+        "20 21R? 23E? 21E? 30 51A? 50[CL]? 50[AK]? 52[ACD]? 26T? 77B? 71A? 72? ( 21 23E? 21C? 21D? 21E? 32B 50[CL]? 50[AK]? 52[ACD]? 57[ACD]? 59[-A] 70? 26T? 77B? 33B? 71A? 71F? 71G? 36? ){1,} (: 32B 19? 71F? 71G? 53[ABD]? ){0,1}",
+    ),
+    (
+        "107",
+        "20 23E? 21E? 30 51A? 50[CL]? 50[AK]? 52[ACD]? 26T? 77B? 71A? 72? ( 21 23E? 21C? 21D? 21E? 32B 50[CL]? 50[AK]? 52[ACD]? 57[ACD]? 59[-A] 70? 26T? 77B? 33B? 71A? 71F? 71G? 36? ){1,} 32B 19? 71F? 71G? 53[ABD]?",
+    ),
+    (
+        "110",
+        "20 53[ABD]? 54[ABD]? 72? ( 21 30 32[AB] 50[AFK]? 52[ABD]? 59[-F] ){1,10}",
+    ),
     ("111", "20 21 30 32[AB] 52[AD]? 59? 75?"),
     ("112", "20 21 30 32[AB] 52[AD]? 59? 76"),
     ("190", "20 21 25 32[CD] 52[AD]? 71B 72?"),
@@ -26,10 +41,22 @@ pub const LAYOUTS: &[(&str, &str)] = &[
     ("196", "20 21 76 77A? 79?"),
     ("199", "20 21? 79"),
     ("200", "20 32A 53B? 56[AD]? 57[ABD] 72?"),
-    ("202", "20 21 13C* 32A 52[AD]? 53[ABD]? 54[ABD]? 56[AD]? 57[ABD]? 58[AD] 72? ( 50[AFK]? 52[AD]? 56[ACD]? 57[ABCD]? 59[-AF]? 70? 72? 33B? ){0,1}"),
-    ("204", "19 20 30 57[ABD]? 58[AD]? 72? ( 20 21? 32B 53[ABD]? 72? ){1,10}"),
-    ("205", "20 21 13C* 32A 52[AD]? 53[ABD]? 56[AD]? 57[ABD]? 58[AD] 72?"),
-    ("210", "20 25? 30 ( 21? 32B 50[-CF]? 52[AD]? 56[AD]? ){1,10}"),
+    (
+        "202",
+        "20 21 13C* 32A 52[AD]? 53[ABD]? 54[ABD]? 56[AD]? 57[ABD]? 58[AD] 72? ( 50[AFK] 52[AD]? 56[ACD]? 57[ABCD]? 59[-AF]? 70? 72? 33B? ){0,1}",
+    ),
+    (
+        "204",
+        "19 20 30 57[ABD]? 58[AD]? 72? ( 20 21? 32B 53[ABD]? 72? ){1,10}",
+    ),
+    (
+        "205",
+        "20 21 13C* 32A 52[AD]? 53[ABD]? 56[AD]? 57[ABD]? 58[AD] 72?",
+    ),
+    (
+        "210",
+        "20 25? 30 ( 21? 32B 50[-CF]? 52[AD]? 56[AD]? ){1,10}",
+    ),
     ("290", "20 21 25 32[CD] 52[AD]? 71B 72?"),
     ("291", "20 21 32B 52[AD]? 57[ABD]? 71B 72?"),
     ("292", "20 21 11S 79"),
@@ -40,17 +67,37 @@ pub const LAYOUTS: &[(&str, &str)] = &[
     ("920", "20 ( 12 25 34F? 34F? ){1,100}"),
     ("935", "20 ( < 23 25 > 30 37H+ ){1,10} 72?"),
     ("940", "20 21? 25 28C 60F ( 61 86? ){1,} 62F 64? 65*"),
-    ("941", "20 21? 25[-P] 28 13D? 60F? 90D? 90C? 62F 64? 65* 86?"),
-    ("942", "20 21? 25[-P] 28C 34F 34F? 13D ( 61 86? )* 90D? 90C? 86?"),
+    (
+        "941",
+        "20 21? 25[-P] 28 13D? 60F? 90D? 90C? 62F 64? 65* 86?",
+    ),
+    (
+        "942",
+        "20 21? 25[-P] 28C 34F 34F? 13D ( 61 86? )* < (: 90D 90C? 86? ){1,1} (: 90C 86? ){1,1} >?",
+    ),
     ("950", "20 25 28C 60[FM] 61* 62[FM] 64?"),
 ];
 
 #[derive(Clone, Debug)]
 pub enum L {
-    Field { base: String, letters: Vec<String>, min: usize, max: usize },
+    Field {
+        base: String,
+        letters: Vec<String>,
+        min: usize,
+        max: usize,
+    },
     /// `inline`: the group is not a JSON sequence of its own (its fields sit at the parent level)
-    Group { items: Vec<L>, min: usize, max: usize, inline: bool },
-    OneOf { items: Vec<L>, min: usize, max: usize },
+    Group {
+        items: Vec<L>,
+        min: usize,
+        max: usize,
+        inline: bool,
+    },
+    OneOf {
+        items: Vec<L>,
+        min: usize,
+        max: usize,
+    },
 }
 
 pub const UNBOUNDED: usize = usize::MAX;
@@ -66,7 +113,11 @@ fn parse_quant(q: &str) -> (usize, usize) {
             let mut it = inner.split(',');
             let a: usize = it.next().unwrap().parse().unwrap();
             let b = it.next().unwrap_or("");
-            let b = if b.is_empty() { UNBOUNDED } else { b.parse().unwrap() };
+            let b = if b.is_empty() {
+                UNBOUNDED
+            } else {
+                b.parse().unwrap()
+            };
             (a, b)
         }
     }
@@ -86,7 +137,16 @@ fn parse_items(toks: &[String], i: &mut usize, closer: &str) -> Vec<L> {
             let ct = toks[*i].clone();
             *i += 1;
             let (min, max) = parse_quant(&ct[1..]);
-            out.push(if t == "<" { L::OneOf { items, min, max } } else { L::Group { items, min, max, inline: t == "(:" } });
+            out.push(if t == "<" {
+                L::OneOf { items, min, max }
+            } else {
+                L::Group {
+                    items,
+                    min,
+                    max,
+                    inline: t == "(:",
+                }
+            });
         } else {
             // field token
             let base = t[0..2].to_string();
@@ -101,7 +161,11 @@ fn parse_items(toks: &[String], i: &mut usize, closer: &str) -> Vec<L> {
             if rest.starts_with('[') {
                 let e = rest.find(']').unwrap();
                 for c in rest[1..e].chars() {
-                    letters.push(if c == '-' { String::new() } else { c.to_string() });
+                    letters.push(if c == '-' {
+                        String::new()
+                    } else {
+                        c.to_string()
+                    });
                 }
                 rest = &rest[e + 1..];
             }
@@ -109,7 +173,12 @@ fn parse_items(toks: &[String], i: &mut usize, closer: &str) -> Vec<L> {
                 letters.push(String::new());
             }
             let (min, max) = parse_quant(rest);
-            out.push(L::Field { base, letters, min, max });
+            out.push(L::Field {
+                base,
+                letters,
+                min,
+                max,
+            });
         }
     }
     out
@@ -121,13 +190,51 @@ pub fn parse_layout(s: &str) -> Vec<L> {
     parse_items(&toks, &mut i, "")
 }
 
+/// Where the generation layout was narrowed to unambiguous constructs, the full
+/// documented language used for *recognition* (is this tag sequence still a message of the type?)
+pub const RECOGNITION_OVERRIDES: &[(&str, &str)] = &[
+    (
+        "104",
+        "20 21R? 23E? 21E? 30 51A? 50[CL]? 50[AK]? 52[ACD]? 26T? 77B? 71A? 72? ( 21 23E? 21C? 21D? 21E? 32B 50[CL]? 50[AK]? 52[ACD]? 57[ACD]? 59[-A] 70? 26T? 77B? 33B? 71A? 71F? 71G? 36? ){1,} 32B? 19? 71F? 71G? 53[ABD]?",
+    ),
+    (
+        "202",
+        "20 21 13C* 32A 52[AD]? 53[ABD]? 54[ABD]? 56[AD]? 57[ABD]? 58[AD] 72? 50[AFK]? 52[AD]? 56[ACD]? 57[ABCD]? 59[-AF]? 70? 72? 33B?",
+    ),
+    (
+        "942",
+        "20 21? 25[-P] 28C 34F 34F? 13D ( 61 86? )* 90D? 90C? 86?",
+    ),
+    ("192", "20 21 11S 79?"),
+    ("292", "20 21 11S 79?"),
+];
+
+pub fn recognition_layouts() -> &'static Vec<(&'static str, Vec<L>)> {
+    static S: OnceLock<Vec<(&'static str, Vec<L>)>> = OnceLock::new();
+    S.get_or_init(|| {
+        RECOGNITION_OVERRIDES
+            .iter()
+            .map(|(mt, s)| (*mt, parse_layout(s)))
+            .collect()
+    })
+}
+
 pub fn layouts() -> &'static Vec<(&'static str, Vec<L>)> {
     static S: OnceLock<Vec<(&'static str, Vec<L>)>> = OnceLock::new();
-    S.get_or_init(|| LAYOUTS.iter().map(|(mt, s)| (*mt, parse_layout(s))).collect())
+    S.get_or_init(|| {
+        LAYOUTS
+            .iter()
+            .map(|(mt, s)| (*mt, parse_layout(s)))
+            .collect()
+    })
 }
 
 pub fn layout_of(mt: &str) -> &'static Vec<L> {
-    &layouts().iter().find(|(m, _)| *m == mt).unwrap_or_else(|| panic!("no layout {mt}")).1
+    &layouts()
+        .iter()
+        .find(|(m, _)| *m == mt)
+        .unwrap_or_else(|| panic!("no layout {mt}"))
+        .1
 }
 
 // ------------------------------------------------------------------ generated messages
@@ -192,13 +299,21 @@ fn pick_count(src: &mut Src, min: usize, max: usize, o: &GenOpts) -> usize {
     if max == 1 && min == 0 {
         return if src.flip() { 1 } else { 0 };
     }
-    let hi = if max == UNBOUNDED { o.star_max.max(min) } else { max };
+    let hi = if max == UNBOUNDED {
+        o.star_max.max(min)
+    } else {
+        max
+    };
     match src.below(8) {
         0 | 1 | 2 => min,
         3 | 4 => (min + 1).min(hi),
         5 => (min + 2).min(hi),
         6 => {
-            if o.allow_cap && max != UNBOUNDED && max <= 12 { max } else { (min + 1).min(hi) }
+            if o.allow_cap && max != UNBOUNDED && max <= 12 {
+                max
+            } else {
+                (min + 1).min(hi)
+            }
         }
         _ => src.range(min, hi.min(min + 3)),
     }
@@ -208,10 +323,23 @@ fn pick_count(src: &mut Src, min: usize, max: usize, o: &GenOpts) -> usize {
 /// field table (used to keep parse-time semantic constraints satisfied).
 pub type ContentHook = dyn Fn(&str, &str, &mut Src) -> Option<(String, Vec<Comp>)> + Sync;
 
-pub fn gen_items(mt: &str, items: &[L], src: &mut Src, o: &GenOpts, path: &mut Vec<usize>, hook: Option<&ContentHook>, out: &mut Vec<GenField>) {
+pub fn gen_items(
+    mt: &str,
+    items: &[L],
+    src: &mut Src,
+    o: &GenOpts,
+    path: &mut Vec<usize>,
+    hook: Option<&ContentHook>,
+    out: &mut Vec<GenField>,
+) {
     for it in items {
         match it {
-            L::Field { base, letters, min, max } => {
+            L::Field {
+                base,
+                letters,
+                min,
+                max,
+            } => {
                 let n = pick_count(src, *min, *max, o);
                 for _ in 0..n {
                     let letter = &letters[src.below(letters.len())];
@@ -219,15 +347,28 @@ pub fn gen_items(mt: &str, items: &[L], src: &mut Src, o: &GenOpts, path: &mut V
                     let (content, comps) = match hook.and_then(|h| h(mt, &tag, src)) {
                         Some(x) => x,
                         None => {
-                            let sp = spec_of_tag(&tag).unwrap_or_else(|| panic!("no field spec for tag {tag} in MT{mt}"));
+                            let sp = spec_of_tag(&tag)
+                                .unwrap_or_else(|| panic!("no field spec for tag {tag} in MT{mt}"));
                             let g = sp.g.generate(src);
                             (g.text, g.comps)
                         }
                     };
-                    out.push(GenField { tag, content, comps, path: path.clone(), mandatory: *min >= 1, n_options: letters.len() });
+                    out.push(GenField {
+                        tag,
+                        content,
+                        comps,
+                        path: path.clone(),
+                        mandatory: *min >= 1,
+                        n_options: letters.len(),
+                    });
                 }
             }
-            L::Group { items, min, max, inline } => {
+            L::Group {
+                items,
+                min,
+                max,
+                inline,
+            } => {
                 let n = pick_count(src, *min, *max, o);
                 for k in 0..n {
                     if !*inline {
@@ -254,7 +395,10 @@ pub fn gen_message(mt: &str, src: &mut Src, o: &GenOpts, hook: Option<&ContentHo
     let mut fields = Vec::new();
     let mut path = Vec::new();
     gen_items(mt, layout_of(mt), src, o, &mut path, hook, &mut fields);
-    GenMsg { mt: mt.to_string(), fields }
+    GenMsg {
+        mt: mt.to_string(),
+        fields,
+    }
 }
 
 // ------------------------------------------------------------------ recogniser
@@ -280,7 +424,11 @@ fn rec_items(items: &[L], tags: &[String], from: &BTreeSet<usize>) -> BTreeSet<u
 
 fn rec_once(it: &L, tags: &[String], from: &BTreeSet<usize>) -> BTreeSet<usize> {
     match it {
-        L::Field { base, letters, .. } => from.iter().filter(|p| **p < tags.len() && tag_matches(base, letters, &tags[**p])).map(|p| p + 1).collect(),
+        L::Field { base, letters, .. } => from
+            .iter()
+            .filter(|p| **p < tags.len() && tag_matches(base, letters, &tags[**p]))
+            .map(|p| p + 1)
+            .collect(),
         L::Group { items, .. } => rec_items(items, tags, from),
         L::OneOf { items, .. } => {
             let mut out = BTreeSet::new();
@@ -294,7 +442,9 @@ fn rec_once(it: &L, tags: &[String], from: &BTreeSet<usize>) -> BTreeSet<usize> 
 
 fn rec_rep(it: &L, tags: &[String], from: &BTreeSet<usize>) -> BTreeSet<usize> {
     let (min, max) = match it {
-        L::Field { min, max, .. } | L::Group { min, max, .. } | L::OneOf { min, max, .. } => (*min, *max),
+        L::Field { min, max, .. } | L::Group { min, max, .. } | L::OneOf { min, max, .. } => {
+            (*min, *max)
+        }
     };
     let mut out = BTreeSet::new();
     if min == 0 {
@@ -324,7 +474,12 @@ fn rec_rep(it: &L, tags: &[String], from: &BTreeSet<usize>) -> BTreeSet<usize> {
 pub fn in_language(mt: &str, tags: &[String]) -> bool {
     let mut from = BTreeSet::new();
     from.insert(0usize);
-    rec_items(layout_of(mt), tags, &from).contains(&tags.len())
+    let lay = recognition_layouts()
+        .iter()
+        .find(|(m, _)| *m == mt)
+        .map(|x| &x.1)
+        .unwrap_or_else(|| layout_of(mt));
+    rec_items(lay, tags, &from).contains(&tags.len())
 }
 
 /// All tags (base+letter) the layout of the type mentions.
@@ -355,10 +510,21 @@ mod tests {
     #[test]
     fn lang() {
         let t = |v: &[&str]| v.iter().map(|s| s.to_string()).collect::<Vec<_>>();
-        assert!(in_language("103", &t(&["20", "23B", "32A", "50K", "59", "71A"])));
+        assert!(in_language(
+            "103",
+            &t(&["20", "23B", "32A", "50K", "59", "71A"])
+        ));
         assert!(!in_language("103", &t(&["20", "32A", "50K", "59", "71A"])));
-        assert!(in_language("103", &t(&["20", "13C", "13C", "23B", "23E", "32A", "50A", "59F", "71A", "71F", "71F"])));
-        assert!(in_language("935", &t(&["20", "23", "30", "37H", "37H", "25", "30", "37H", "72"])));
+        assert!(in_language(
+            "103",
+            &t(&[
+                "20", "13C", "13C", "23B", "23E", "32A", "50A", "59F", "71A", "71F", "71F"
+            ])
+        ));
+        assert!(in_language(
+            "935",
+            &t(&["20", "23", "30", "37H", "37H", "25", "30", "37H", "72"])
+        ));
         assert!(!in_language("935", &t(&["20", "23", "25", "30", "37H"])));
         assert!(in_language("296", &t(&["20", "21", "76", "11S", "79"])));
     }
